@@ -44,7 +44,7 @@ func (p *Program) emitSMT(ob *Obligation, forCVC5 bool) string {
 	for changed := true; changed; {
 		changed = false
 		for name, ax := range p.defAxioms {
-			if !usedDef[name] && d.Has(name) {
+			if !usedDef[name] && d.Has(strings.TrimPrefix(name, "wf:")) {
 				usedDef[name] = true
 				defs = append(defs, ax)
 				d.Collect(ax, nil)
@@ -397,6 +397,25 @@ done:
 		ob.Verdict, ob.Solver = "unknown", "none"
 		for _, r := range all {
 			ob.Model += "--- " + r.name + " ---\n" + truncate(r.out, 2000) + "\n"
+		}
+		// diagnosis: drop the quantified assumptions; a model of the weakened query is a candidate counterexample
+		if !ob.Vacuity {
+			var keep []string
+			for _, l := range strings.Split(sz, "\n") {
+				if strings.HasPrefix(l, "(assert ") && (strings.Contains(l, "(forall ") || strings.Contains(l, "(exists ")) && !strings.HasPrefix(l, "(assert (not ") {
+					continue
+				}
+				keep = append(keep, l)
+			}
+			fq := base + ".qf.smt2"
+			os.WriteFile(fq, []byte(strings.Join(keep, "\n")), 0o644)
+			ctx2, cancel2 := context.WithTimeout(context.Background(), 5*time.Second)
+			r := runSolver(ctx2, "z3-new", []string{"z3-new", "-T:3", "-smt2"}, fq)
+			cancel2()
+			ob.SolverNotes += fmt.Sprintf(" | quantifier-free weakening: %s", r.verdict)
+			if r.verdict == "sat" {
+				ob.CandidateModel = truncate(r.out, 200000)
+			}
 		}
 		return
 	}
